@@ -96,7 +96,11 @@ where
     let internal_id = InternalConnectionIdGenerator::new().generate_id();
     let peer_id = PeerId::try_from_bytes(hs.peer_cid).expect("peer connection id of 0..=20 bytes");
     let peer_id_registry = if Config::ENDPOINT_TYPE.is_client() {
-        mapper.create_client_peer_id_registry(internal_id, true)
+        // path::Manager registers the server's Source Connection ID when its first packet arrives,
+        // long before the transport parameters do
+        let mut registry = mapper.create_client_peer_id_registry(internal_id, true);
+        registry.register_initial_connection_id(peer_id);
+        registry
     } else {
         mapper.create_server_peer_id_registry(internal_id, peer_id, true)
     };
